@@ -569,6 +569,15 @@ def run_fuzzer(binary, seed, runs_per_job, jobs, max_len, seeds, workdir, tag, d
     return stats, crashes
 
 
+def complete_lines(path):
+    """Lines of a worker's record file that were written completely. A worker that dies leaves its last record torn (and
+    without the newline); the death is reported through absorb(), the torn record must not be read as an output."""
+    with open(path, errors="replace") as f:
+        for line in f:
+            if line.endswith("\n"):
+                yield line
+
+
 def fuzz_stage(v, prop, target, seed, runs_per_job, jobs, max_len, seeds, workdir, dictionary=None, extra=()):
     """Build harness/fuzz/<target>.cpp with clang libFuzzer+ASan+UBSan, run it, route every crash through the verdict."""
     import shutil
